@@ -474,6 +474,11 @@ pub fn run_case(rt: &tokio::runtime::Runtime, line: &str) -> String {
             Ok(rl) => pr_toks(&rl.to_strings()),
             Err(_) => UNC.into(),
         },
+        "rl_new" => match rd.rl() {
+            // RangeList::new = compact on the given ranges
+            Ok(rl) => format!("ok {}", pr_rl(&RangeList::new(rl.get_ranges().to_vec()))),
+            Err(_) => UNC.into(),
+        },
         "rl_try" => {
             let s = match String::from_utf8(unhex(rd.next())) {
                 Ok(s) => s,
